@@ -33,6 +33,23 @@ applies it to a scratch worktree of /repo HEAD and runs the property's quick che
 was strengthened (never loosened) and the run repeated.  Changes rejected by the confirmation step
 (demo or pinned suite) are not kept.
 
+Three rounds were run (prompt templates in `tools/prompts/`): ids `Cxx-N` are round 1 (the obvious slips: boundary
+off-by-one, dropped mask, swapped operand, narrowed except), `Cxx-bN` round 2 (rarely used branches, vendor
+subclasses, state carried over between two operations, defaults/tables, order of operations), `Cxx-cN` round 3
+(well-meant maintenance gone wrong: performance shortcuts and caches, Python-3 idiom slips such as truthiness of 0 and
+OSError subclasses, consolidated error handling, merged helpers, half-reverted `fix:` commits, new features whose
+plumbing disturbs the old path).  Round 3 was first missed in nine of sixty cases; the classes and what was added:
+error *families* instead of one representative exception (C09, C18: `IOError(ETIMEDOUT)` is `TimeoutError`, a
+dictionary lookup by `type(error)` in the run-loop handler fails before `terminate()`; the run-loop handlers are now
+also extracted and checked statically), simulated time (C07: a time-out hoisted out of the retry loop; now a timed
+model, deadline theorems and a translation tie over the time-out expression), never-ending adversarial cards (C08:
+R(ACK)/S(WTX)/chaining for ever - which also exposed a genuine hang, fix `b65ae89`), the real lower layer in the loop
+(C06 now runs over the real `nfc.dep` exchange at MIU up to 2175), window-0 connection set-up PDUs and several SAPs
+pending in one collect round (C10, C19), layouts that end exactly at the end of the data area (C03, plus a translation
+tie for `Type2Tag._format`), and side effects on the caller's buffer (C14: the translator now rejects an in-place
+`+=` on a caller-owned bytearray).  A seed whose patch no longer applies to the current HEAD (because a later `fix:`
+commit rewrote the same lines) keeps the result recorded when it was run.
+
 | seed | change | quick check | how |
 |---|---|---|---|
 ''' + '\n'.join(rows) + '\n\n'
